@@ -560,7 +560,7 @@ impl Property for C18N {
         if ending == Ending::Stop {
             blocks.push(Block::Raw(vec![0x40, 0xfe])); // BRA . : only cmd:stop ends the run
         }
-        let guest = GuestSpec { blocks, handlers: vec![], code_dram: false, stack_dram: false, data_dram: rng.chance(1, 4), vec_top: 0, sub_delay: 1, init_ccr: None, stack_off: 0 };
+        let guest = GuestSpec { blocks, handlers: vec![], code_dram: false, stack_dram: false, data_dram: rng.chance(1, 4), vec_top: 0, sub_delay: 1, init_ccr: None, stack_off: 0, exit_style: 0 };
         // script
         let n = rng.range(1, if tier == Tier::Quick { 10 } else { 24 }) as usize;
         let mut lines = Vec::new();
